@@ -69,6 +69,9 @@ pub fn disc_value(text: &str) -> Option<i128> {
     if let Some(rest) = t.strip_prefix('-') {
         return rest.trim().parse::<i128>().ok().map(|v| -v);
     }
+    if let Some(h) = t.strip_prefix("0x") {
+        return i128::from_str_radix(&h.replace('_', ""), 16).ok();
+    }
     t.parse::<i128>().ok()
 }
 
@@ -191,6 +194,8 @@ pub fn programs(tier: Tier) -> ProgramSet {
                     format!("-{}", 3 + i),          // negative
                     format!("{}", 40 - 7 * i),      // descending when used on several variants
                 ];
+                // values that only fit 64-bit discriminant types, written as expressions over unsuffixed literals
+                choices.extend(["1 << 31".to_string(), "0xFFFF << 16".into(), "1 << 40".into()]);
                 if full {
                     choices.extend(["127".to_string(), "-128".into(), "255".into(), "32767".into(), "-32768".into(), "65535".into(), "KM5".into(), "K10 + 1".into(), "1 << 2".into(), "6 | 1".into(), "12 & 10".into(), "2 * 3".into(), "5 ^ 1".into()]);
                 } else {
@@ -222,6 +227,25 @@ pub fn programs(tier: Tier) -> ProgramSet {
                 let source = render(&e.spec);
                 out.push(Program { idx: 0, label: e.label, k: e.k, spec: e.spec, aux: json!(null), source });
             }
+        }
+    }
+    // SCALE: many variants (implicit chain), at and around powers of two; a repr(u8) enum that uses the whole type
+    for (n, repr, dis) in [(17usize, None, false), (33, Some("u8"), true), (70, Some("i16"), false), (256, Some("u8"), false), (100, Some("i8"), false)] {
+        let mut spec = EnumSpec::base(0);
+        spec.repr = repr.map(|r: &str| r.to_string());
+        for i in 0..n {
+            let mut v = VariantSpec::unit(&format!("V{}", i));
+            if dis && i % 5 == 2 {
+                v.disabled = true;
+            }
+            spec.variants.push(v);
+        }
+        if repr == Some("i8") {
+            spec.variants[0].disc = Some("-50".into()); // -50 ..= 49
+        }
+        if in_domain(&spec) {
+            let source = render(&spec);
+            out.push(Program { idx: 0, label: format!("SCALE: {} variants, repr {:?}{}", n, repr, if dis { ", every 5th disabled" } else { "" }), k: 1, spec, aux: json!(null), source });
         }
     }
     let mut ex = std::collections::BTreeMap::new();
